@@ -415,7 +415,7 @@ class Body:
             edges.append(("otherwise", t["o"]))
         return e, edges
 
-    def guards(self, site):
+    def guards(self, site, _depth=0):
         """facts established on every path to `site`: list of
         (cond_expr, label, branch_block)"""
         out = []
@@ -428,11 +428,21 @@ class Body:
             for lab, tb in edges:
                 by_t[tb].append(lab)
             for tb, labs in by_t.items():
-                if (a != site or True) and self.edge_dominates(a, tb, site) and a != site:
+                if self.edge_dominates(a, tb, site) and a != site:
                     for lab in labs:
                         out.append((e, lab, a))
                     if len(labs) > 1:
                         out.append((e, ("oneof", tuple(labs)), a))
+                    # `matches!(..)` / `let b = <match>` : a bool temp assigned
+                    # constants in the arms and then tested. Taking the edge
+                    # `lab` means control came through the (unique) arm that
+                    # stored that constant, so that arm's guards hold too.
+                    if _depth < 3 and e[0] == "phi" and len(labs) == 1 and isinstance(labs[0], bool):
+                        want = 1 if labs[0] else 0
+                        arms = [d for d in self.defs().get(e[1], []) if d[0] == "=" and d[3]["k"] == "use" and "const" in d[3]["ops"][0] and d[3]["ops"][0]["const"].get("int") == want]
+                        alld = self.defs().get(e[1], [])
+                        if len(arms) == 1 and all(d[0] == "=" and d[3]["k"] == "use" and "const" in d[3]["ops"][0] for d in alld):
+                            out.extend(self.guards(arms[0][1], _depth + 1))
         return out
 
     # ------------------------------------ correlated tests (dead edges) --
